@@ -31,7 +31,19 @@ def instances(tier, rng):
         extra.append({"cons": [[es[0], es[-1]]]})
         if len(u["edges"]) >= 2:
             extra.append({"ign": [list(rng.choice(u["edges"]))]})
-        for cfg in cfgs + (rng.sample(extra, 2) if quick else extra):
+        always = []
+        if len(u["edges"]) >= 3:
+            # larger ignore sets (any subset keeps the planted decomposition admissible), in particular everything off one
+            # planted walk so that the ignored part carries flow values the rest does not have - with the lower-bound options
+            E = [list(e) for e in u["edges"]]
+            always.append({"ign": rng.sample(E, rng.randint(2, len(E) - 1))})
+            keep = {tuple(e) for e in C.route_edges(rng.choice(u["proutes"]))}
+            off = [e for e in E if tuple(e) not in keep]
+            if off and keep:
+                always.append({"ign": off})
+                always.append({"ign": off, "opt": rng.choice([{"use_min_gen_set_lowerbound": True}, {"optimize_with_guessed_weights": True},
+                                                              {"optimize_with_safe_sequences": False}])})
+        for cfg in cfgs + (rng.sample(extra, 2) + rng.sample(always, min(2, len(always))) if quick else extra + always):
             r = C.base(u, "MinFlowDecompCycles", cfg.get("mode", "edge"))
             r["wt"] = "int"
             r["expect_solved"] = True
